@@ -288,7 +288,12 @@ def u_problems(c):
         from pvc.models import _split_head
         base = _split_head(t, z3.StringVal("."))
         in_table = z3.Or(base == z3.StringVal("a"), base == z3.StringVal("b"))
-        bad = z3.If(is_loop, False, z3.If(is_hash, z3.Not(valid), z3.Or(z3.Not(in_table), z3.Not(ce(t)))))
+        # a loop marker is named after the loop variable: #loop_<v> / #endloop_<v> for a name that is not a variable of the function is
+        # not one of the documented meta-variables of THAT function (it could never fire)
+        is_begin = z3.PrefixOf(z3.StringVal("#loop_"), t)
+        suffix = z3.If(is_begin, z3.SubString(t, 6, z3.Length(t) - 6), z3.SubString(t, 9, z3.Length(t) - 9))
+        loop_ok = z3.Or(suffix == z3.StringVal("a"), suffix == z3.StringVal("b"))
+        bad = z3.If(is_loop, z3.Not(loop_ok), z3.If(is_hash, z3.Not(valid), z3.Or(z3.Not(in_table), z3.Not(ce(t)))))
         c.prove("problems/reported-iff-unknown-meta-variable-or-missing-variable-or-category-mismatch", z3.And(n <= 1, (n == 1) == bad) if True else False)
     st, r = run(it, it.get_global(S, "verify"), [sel])
     c.prove("verify/SelectorError-iff-problems", (st == "raise" and exc_name(r) == "SelectorError") if n else (st == "ok" and r is sel))
